@@ -51,7 +51,7 @@ func c16Values(c *core.Ctx) ([]int64, []uint64) {
 	}
 	// random part is the same for every batch (depths are what is partitioned)
 	r := core.NewRand(c.Seed, core.HashStr("C16-values"))
-	for i := 0; i < c.Pick(20000, 100000); i++ {
+	for i := 0; i < c.Pick(20000, 400000); i++ {
 		sh := uint(r.Intn(64))
 		addU(r.Uint64() >> sh)
 		addI(int64(r.Uint64()) >> sh)
